@@ -33,7 +33,7 @@ func (r *it) Consume(map[string]interface{}) (map[string]interface{}, error) {
 }
 func (r *it) Fork(n int) []core.PipelineItem { return core.ForkSamePipelineItem(r, n) }
 
-func run(specs []*it) (res string, names []string) {
+func run(specs []*it) (res string, names []*it) {
 	defer func() {
 		if r := recover(); r != nil {
 			res = fmt.Sprintf("PANIC %v", r)
@@ -51,7 +51,7 @@ func run(specs []*it) (res string, names []string) {
 	}
 
 	for _, x := range p.VerifItems() {
-		names = append(names, x.Name())
+		names = append(names, x.(*it))
 	}
 	return "ok", names
 }
@@ -59,11 +59,9 @@ func run(specs []*it) (res string, names []string) {
 // validate states C10 on the outcome of the real Initialize (oracle, no model involved).
 // Reading of "runs after every other provider" (DESIGN.md, C10): item I runs after provider Q of an entity I
 // requires unless Q itself transitively requires an output of I (then Q is downstream of I, e.g. a refiner).
-func validate(specs []*it, res string, names []string) string {
-	byName := map[string]*it{}
+func validate(specs []*it, res string, names []*it) string {
 	providers := map[string][]*it{}
 	for _, s := range specs {
-		byName[s.name] = s
 		for _, e := range s.provides {
 			providers[e] = append(providers[e], s)
 		}
@@ -136,15 +134,17 @@ func validate(specs []*it, res string, names []string) string {
 	if len(names) != len(specs) {
 		return fmt.Sprintf("%d items resolved out of %d", len(names), len(specs))
 	}
-	pos := map[string]int{}
+	pos := map[*it]int{}
 	for i, n := range names {
 		if _, dup := pos[n]; dup {
-			return "item " + n + " appears twice"
-		}
-		if byName[n] == nil {
-			return "unknown item " + n
+			return "item " + n.name + " appears twice"
 		}
 		pos[n] = i
+	}
+	for _, sp := range specs {
+		if _, ok := pos[sp]; !ok {
+			return "item " + sp.name + " is missing from the resolved order"
+		}
 	}
 	for _, i := range specs {
 		for _, e := range i.requires {
@@ -152,7 +152,7 @@ func validate(specs []*it, res string, names []string) string {
 				if q == i || down[i][q] {
 					continue
 				}
-				if pos[q.name] > pos[i.name] {
+				if pos[q] > pos[i] {
 					return fmt.Sprintf("%s runs before %s, which provides its input %s", i.name, q.name, e)
 				}
 			}
@@ -178,6 +178,9 @@ func main() {
 		var specs []*it
 		for i := 0; i < n; i++ {
 			s := &it{name: pool[i]}
+			if i > 0 && rng.Intn(6) == 0 {
+				s.name = specs[rng.Intn(i)].name // two items of the same type: nodes <name>_1, <name>_2 in insertion order
+			}
 			for _, e := range ents {
 				if rng.Intn(5) == 0 && (ambiguousOK || provided[e] == 0) {
 					s.provides = append(s.provides, e)
@@ -205,8 +208,35 @@ func main() {
 			sort.Strings(cand)
 			if len(cand) > 0 && n < len(pool) {
 				e := cand[rng.Intn(len(cand))]
-				specs = append(specs, &it{name: pool[n], provides: []string{e}, requires: []string{e}})
+				ref := &it{name: pool[n], provides: []string{e}, requires: []string{e}}
+				for _, x := range ents {
+					if provided[x] == 0 && rng.Intn(3) == 0 {
+						ref.provides = append(ref.provides, x)
+						provided[x]++
+					}
+				}
+				rng.Shuffle(len(ref.provides), func(i, j int) { ref.provides[i], ref.provides[j] = ref.provides[j], ref.provides[i] })
+				specs = append(specs, ref)
 				provided[e]++
+				// and at least one more consumer of the refined entity
+				if len(specs) > 2 {
+					c := specs[rng.Intn(len(specs)-1)]
+					has := false
+					for _, r := range c.requires {
+						if r == e {
+							has = true
+						}
+					}
+					prov := false
+					for _, pe := range c.provides {
+						if pe == e {
+							prov = true
+						}
+					}
+					if !has && !prov {
+						c.requires = append(c.requires, e)
+					}
+				}
 			}
 		}
 		amb := false
@@ -224,8 +254,21 @@ func main() {
 				nodes = append(nodes, s)
 			}
 		}
+		usage := map[string]int{}
 		for _, s := range specs {
-			add(s.name)
+			usage[s.name]++
+		}
+		cnt := map[string]int{}
+		node := map[*it]string{}
+		for _, s := range specs {
+			node[s] = s.name
+			if usage[s.name] > 1 {
+				cnt[s.name]++
+				node[s] = fmt.Sprintf("%s_%d", s.name, cnt[s.name])
+			}
+		}
+		for _, s := range specs {
+			add(node[s])
 			for _, e := range s.provides {
 				add("[" + e + "]")
 			}
@@ -239,7 +282,7 @@ func main() {
 			id[s] = i
 		}
 		sorted := append([]*it{}, specs...)
-		sort.Slice(sorted, func(i, j int) bool { return sorted[i].name < sorted[j].name })
+		sort.SliceStable(sorted, func(i, j int) bool { return sorted[i].name < sorted[j].name })
 		var parts []string
 		for _, s := range sorted {
 			var ps, rs []string
@@ -249,7 +292,7 @@ func main() {
 			for _, e := range s.requires {
 				rs = append(rs, strconv.Itoa(id["["+e+"]"]))
 			}
-			parts = append(parts, fmt.Sprintf("%d:%s:%s", id[s.name], strings.Join(ps, ","), strings.Join(rs, ",")))
+			parts = append(parts, fmt.Sprintf("%d:%s:%s", id[node[s]], strings.Join(ps, ","), strings.Join(rs, ",")))
 		}
 		res, names := run(specs)
 		if what := validate(specs, res, names); what != "" {
@@ -268,27 +311,68 @@ func main() {
 					multi[e] = append(multi[e], sp)
 				}
 			}
+			// BFS distance from the roots (items without requirements) in the item/entity graph, as BreadthSort sees it
+			dist := map[*it]int{}
+			edist := map[string]int{}
+			for changed, round := true, 0; changed && round < 64; round++ {
+				changed = false
+				for _, sp := range specs {
+					d := 1 << 20
+					if len(sp.requires) == 0 {
+						d = 0
+					}
+					for _, r := range sp.requires {
+						if ed, ok := edist[r]; ok && ed+1 < d {
+							d = ed + 1
+						}
+					}
+					if old, ok := dist[sp]; d < 1<<20 && (!ok || d < old) {
+						dist[sp] = d
+						changed = true
+					}
+					if dd, ok := dist[sp]; ok {
+						for _, e := range sp.provides {
+							if old, ok2 := edist[e]; !ok2 || dd+1 < old {
+								edist[e] = dd + 1
+								changed = true
+							}
+						}
+					}
+				}
+			}
 			involved := map[*it]int{}
 			for e, ps := range multi {
 				if len(ps) < 2 {
 					continue
 				}
 				refiners := 0
+				var base, refiner *it
 				for _, q := range ps {
 					involved[q]++
+					isRef := false
 					for _, r := range q.requires {
 						if r == e {
-							refiners++
+							isRef = true
 						}
+					}
+					if isRef {
+						refiners++
+						refiner = q
+					} else {
+						base = q
 					}
 				}
 				if !(len(ps) == 2 && refiners == 1) {
 					class = "duplicated-providers-general"
-				}
-			}
-			for _, c := range involved {
-				if c > 1 {
-					class = "duplicated-providers-general"
+				} else {
+					// the chaining picks the provider that comes later in breadth-first order as the refiner: only
+					// when the base provider is strictly closer to the roots is that choice the right one (built-in
+					// pairs TreeDiff/RenameAnalysis and FileDiff/FileDiffRefiner have this shape)
+					db, okb := dist[base]
+					dr, okr := dist[refiner]
+					if !okb || !okr || db >= dr {
+						class = "duplicated-providers-general"
+					}
 				}
 			}
 			hv.Fail(class, string(js), what)
@@ -298,7 +382,7 @@ func main() {
 			stable := true
 			for r := 0; r < 6; r++ {
 				res2, names2 := run(specs)
-				if res2 != res || strings.Join(names2, ",") != strings.Join(names, ",") {
+				if res2 != res || fmt.Sprint(names2) != fmt.Sprint(names) {
 					stable = false
 				}
 			}
@@ -315,7 +399,7 @@ func main() {
 		if res == "ok" {
 			var ids []string
 			for _, nm := range names {
-				ids = append(ids, strconv.Itoa(id[nm]))
+				ids = append(ids, strconv.Itoa(id[node[nm]]))
 			}
 			fmt.Fprintf(wi, "ok [%s]\n", strings.Join(ids, ", "))
 		} else {
